@@ -88,6 +88,8 @@ def compares_shape_of(names):
                 return True
             if t.op == "tree.tree_map" and getattr(t.args[0], "name", None) == "np.shape" and (T.atoms_of(t) & set(names)):
                 return True
+            if t.op == "np.shape" and (T.atoms_of(t) & set(names)):
+                return True
             if t.op == "lam" and any(x.op == "attr" and x.args[1] == "shape" for x in T.subterms(t)):
                 return True
         return False
@@ -297,7 +299,8 @@ def rows(S):
         rv = it.instantiate(it.class_value(DENSE + ".DenseNormal"), [arr("mean_flat"), arr("chol"), A("tf")], {}, "<harness>")
         call(it, method(it, rv, "logpdf_flat"), arr("bad"))
 
-    out.append(Row("dense: logpdf of data whose shape differs from the mean", "losses", dense_logpdf_len, "ValueError", ["bad"], cond_pred=lambda c: "mean_flat" in T.atoms_of(c)))
+    out.append(Row("dense: logpdf of data whose shape differs from the mean", "losses", dense_logpdf_len, "ValueError", ["bad"],
+                   cond_pred=lambda c: "mean_flat" in T.atoms_of(c) and compares_shape_of({"bad"})(c)))
 
     # (d) dense exponential prior: drift whose output does not have the state's shape
     def expo_drift(it):
@@ -307,7 +310,7 @@ def rows(S):
 
     # the guard compares the shape of the drift's Jacobian (jac_apply of the flattened drift) with the shape derived from the mean container
     out.append(Row("dense: exponential prior whose drift output does not match the state", "exponential priors", expo_drift, "ValueError", ["m0"],
-                   cond_pred=lambda c: any(t_.op == "jac_apply" for t_ in T.subterms(c)) and any(t_.op == "attr" and t_.args[1] == "shape" for t_ in T.subterms(c))))
+                   cond_pred=lambda c: any(((t_.op == "attr" and t_.args[1] == "shape") or t_.op == "np.shape") and any(x_.op == "jac_apply" for x_ in T.subterms(t_.args[0])) for t_ in T.subterms(c))))
 
     # matfree constraint constructor
     def mf(it):
